@@ -22,3 +22,40 @@ Proof. exact equals_nil_iff. Qed.
 Print Assumptions C12_or_nil_falls_through.
 Print Assumptions C12_get_nil_fails_with_span.
 Print Assumptions C12_unwrap_into_flag.
+
+(* ---------------------------------------------------------------------------------------------
+   The SOURCE-LEVEL statement for whole PROGRAMS, as a theorem on a decidable fragment (Compile/ClosFrag.v .. ClosTop.v,
+   the closure fragment of C07_closure_programs_correct_partial widened by `(a) or b` / `get a` over operands that contain
+   calls, if / else, self calls, && || ! over calls).  Its programs are those of this check (vlib/c12.py gen_program:
+   functions returning optionals -- `if .. { return k } return nil` --, optional variables assigned nil / a value / a call,
+   `x == nil` `x != nil` `nil == x`, `(x) or fallback` where the fallback is a literal, a call (`noisy`, which prints) or
+   another `or`, `get x` in expression and in STATEMENT position, if / else on a nil test, `while pos(w) != nil {..}`, a
+   function whose only use of an outer variable is the fallback of `or`).  For every such program the model compiler's
+   code, run by the VM model, prints exactly the lines the reference semantics (Lang/Eval.v) prints and ends the same
+   way: the fallback of `or` is evaluated exactly when the left operand is nil (`noisy` prints or not), `get` of a
+   present value is that value, `get` of nil stops both sides with the unwrap error carrying the SAME span
+   (FUnwrapNil span ~ E_unwrap_nil span) after the same output, in statement position too.
+   The check evaluates the extracted `in_fragment` (= in_fragment1 || in_fragment2) on every program it generates.
+   PARTIAL: `?=`, containers of optionals and typed-equality cases (the other streams of the check) are covered by the
+   T1/T2/T3 correspondences and the Python oracle only. *)
+From MS Require Import Base.Str Lang.Syntax Lang.Eval Compile.Compile.
+From MS Require Import Compile.ClosFrag Compile.ClosRel Compile.ClosSim Compile.ClosTop Compile.StmtSim Compile.StmtFragB Compile.StmtExamples Compile.ClosExamples2.
+Check closure_module_correct.
+Theorem C12_optional_programs_correct_partial : forall (path : str) (p : source), in_fragment2 path p = true ->
+  forall fuel : nat, snd (run fuel p) <> ROFuel ->
+  no_claim (snd (run fuel p)) \/
+  (exists fuel' : nat,
+     fst (fst (execute fuel' (cprogram path p) (s_module_fn path))) = fst (run fuel p) /\
+     vm_outcome_ok (snd (run fuel p)) (snd (fst (execute fuel' (cprogram path p) (s_module_fn path))))).
+Proof. exact closure_module_correct. Qed.
+Print Assumptions C12_optional_programs_correct_partial.
+Check fragment_correct.
+(* `(a) or b` and `get a` over operands of any shape (calls included) *)
+Check espec_nilor.
+Check espec_get.
+(* non-vacuity: `(pos(0)) or noisy(20)` (the fallback runs and prints), `(o1) or noisy(21)` (it does not), a nested `or`,
+   == nil on both sides, if / else with `get`, a while loop over pos(w) != nil, `get` as a statement, and finally `get`
+   of nil: both sides stop with the span of that `get` after the same 14 lines *)
+Check C12_nv_optional_program.
+Example C12_nv_in_fragment : in_fragment2 nvp nv_c12 = true /\ in_fragment nvp nv_c12 = true.
+Proof. vm_compute. split; reflexivity. Qed.
